@@ -248,7 +248,7 @@ func runC14Closures(c C14Case) (st Stats, err error) {
 				str := cd.String()
 				want := "kw = v"
 				if cl := installed["presentation"]; cl != nil {
-					want = "P" + itoa(cl.n)
+					want = presOut(cl.n)
 					if cl.fail {
 						want = ""
 					}
@@ -326,7 +326,7 @@ func runC14Closures(c C14Case) (st Stats, err error) {
 							if cl.fail {
 								return ""
 							}
-							return "P" + itoa(cl.n)
+							return presOut(cl.n)
 						})
 					case "equality":
 						cd.SetEqualityPolicy(func(a, b any) error { cl.calls++; return cl.err })
@@ -415,7 +415,7 @@ func runC14Closures(c C14Case) (st Stats, err error) {
 			str := s.String()
 			want := builtinString
 			if cl := installed["presentation"]; cl != nil && c.Kind != "BASIC" {
-				want = "P" + itoa(cl.n)
+				want = presOut(cl.n)
 				if cl.fail {
 					want = ""
 				}
@@ -506,7 +506,7 @@ func runC14Closures(c C14Case) (st Stats, err error) {
 						if cl.fail {
 							return ""
 						}
-						return "P" + itoa(cl.n)
+						return presOut(cl.n)
 					})
 					if c.Kind == "BASIC" {
 						basicPP = true
@@ -643,3 +643,7 @@ func init() {
 		Assumptions: []string{"installed closures are pure recorders", "Stack.Valid is only required to be non-nil when the closure errs (it wraps the error); Condition.Valid must return the closure's error itself"},
 	})
 }
+
+// presOut is what the recording presentation closures return: deliberately NOT whitespace-normalised
+// (leading/trailing blanks, a run of blanks, a tab, a newline): String must hand it back untouched.
+func presOut(n int) string { return "  P" + itoa(n) + "  two\tcols\n  indented " }
